@@ -911,6 +911,56 @@ pub fn gen_hammer_wide(seed: u64, want: Option<Kind>) -> Generated {
     Generated { spec: RunSpec { build_on_thread: vec![], slots: vec![cfg], threads, sched: Sched::RoundRobin { quantum: 1 }, stall: None, ballast: 0 }, faults }
 }
 
+/// Exception-safety sweep (C17): one interpolator over the yielding element type, one client, and
+/// for EVERY n up to a bound the history  A, B with "the n-th element operation panics", A, C -
+/// fault-point enumeration over the element operations of one call, the analogue of C18's
+/// enumeration over callback indices. A and C are plain calls in other segments than B.
+pub fn gen_elem_sweep(seed: u64) -> Generated {
+    let mut r = Rng::new(seed);
+    let r = &mut r;
+    let faults = Faults { oob: false, badbuf: false, strat_err: false, strat_panic: false, crash: false, stall: false, cow: false, badidx: false, mismatch: false, sibling: false, reenter: false, elem_panic: true };
+    let cfg = loop {
+        let c = gen_slot(r, Mode::C17);
+        let lanes: usize = c.trailing().iter().product();
+        if c.elem == Elem::Yf && lanes >= 1 && (lanes >= 2 || r.chance(1, 3)) {
+            break c;
+        }
+    };
+    let two = cfg.kind.is_2d();
+    let ax = cfg.axis_x();
+    let ay = if two { cfg.axis_y() } else { vec![0.0, 1.0] };
+    let inside = |r: &mut Rng, a: &[f64], j: usize| a[j] + (a[j + 1] - a[j]) * *r.pick(&[0.5, 0.25, 0.75]);
+    // three segments (cyclically distinct where the axis allows)
+    let nseg = ax.len() - 1;
+    let s0 = r.below(nseg);
+    let segs = [s0, (s0 + 1) % nseg, (s0 + 2) % nseg];
+    let nsy = ay.len() - 1;
+    let t0 = r.below(nsy);
+    let plain = |r: &mut Rng, j: usize| -> Call {
+        let x = Fb(inside(r, &ax, segs[j]));
+        let y = if two { Fb(inside(r, &ay, (t0 + j) % nsy)) } else { Fb(0.0) };
+        match r.weighted(&[3, 2, 2]) {
+            0 => Call::Interp { x, y },
+            1 => Call::Array { q: QSpec { ty: QTy::Q1, shape: vec![2], xs: vec![x, x], ys: if two { vec![y, y] } else { vec![] }, ys_shape: None, lay: Lay::C, ys_lay: Lay::C } },
+            _ => Call::Array { q: QSpec { ty: QTy::QDyn, shape: vec![1, 1], xs: vec![x], ys: if two { vec![y] } else { vec![] }, ys_shape: None, lay: Lay::C, ys_lay: Lay::C } },
+        }
+    };
+    let (a, b, c) = (plain(r, 0), plain(r, 1), plain(r, 2));
+    let mk = |call: &Call, n: u32| Op { slot: 0, call: call.clone(), plan: vec![], yield_mask: 0, check_acc: false, elem_fault: n };
+    let lanes: usize = cfg.trailing().iter().product();
+    // enough to cover the index search, the range check and the evaluation of every lane
+    let bound = (24 + 14 * lanes.max(1) * b.batch_len().max(1)).min(160) as u32;
+    let mut ops = vec![mk(&a, 0)];
+    for n in 1..=bound {
+        ops.push(mk(&b, n));
+        ops.push(mk(&a, 0));
+        if n % 3 == 0 {
+            ops.push(mk(&c, 0));
+        }
+    }
+    Generated { spec: RunSpec { build_on_thread: vec![false], slots: vec![cfg], threads: vec![ThreadSpec { ops, crash_on_fault: false }], sched: Sched::Serial { order: vec![0] }, stall: None, ballast: 0 }, faults }
+}
+
 /// one complete run specification from one seed
 pub fn gen_run(seed: u64, mode: Mode) -> Generated {
     gen_run_inner(seed, mode)
